@@ -305,9 +305,11 @@ func (m *Module) stopAllTasks(reports chan *report) {
 	stopFnError := m.startCtrlFn("stop module", m.stopFn)
 
 	// wait for results
+	var err error
 	select {
 	case <-m.stopComplete:
-		// Complete!
+		// Complete! The stop function has finished, fetch its result.
+		err = <-stopFnError
 	case <-time.After(moduleStopTimeout):
 		log.Warningf(
 			"%s: timed out while waiting for stopfn/workers/tasks to finish: stopFn=%v workers=%d tasks=%d microtasks=%d, continuing shutdown...",
@@ -317,21 +319,19 @@ func (m *Module) stopAllTasks(reports chan *report) {
 			atomic.LoadInt32(m.taskCnt),
 			atomic.LoadInt32(m.microTaskCnt),
 		)
-	}
-
-	// Check for stop fn status.
-	var err error
-	select {
-	case err = <-stopFnError:
-		if err != nil {
-			// Set error as module error.
-			m.Error(
-				fmt.Sprintf("%s:stop-failed", m.Name),
-				fmt.Sprintf("Stopping module %s failed", m.Name),
-				fmt.Sprintf("Failed to stop module: %s", err.Error()),
-			)
+		// Check for stop fn status.
+		select {
+		case err = <-stopFnError:
+		default:
 		}
-	default:
+	}
+	if err != nil {
+		// Set error as module error.
+		m.Error(
+			fmt.Sprintf("%s:stop-failed", m.Name),
+			fmt.Sprintf("Stopping module %s failed", m.Name),
+			fmt.Sprintf("Failed to stop module: %s", err.Error()),
+		)
 	}
 
 	// Always set to offline in order to let other modules shutdown in order.
